@@ -134,11 +134,19 @@ pub struct Knobs {
     pub tau_ps: u64,
     pub policy: Policy,
     pub spurious_permille: u32,
+    /// the GUI re-sends `position` before the first `go` after a `ucinewgame` (as GUIs do); false =
+    /// it sends a bare `go` and assumes the start position, like a GUI talking to a fresh engine
+    #[serde(default = "yes")]
+    pub resend_position: bool,
+}
+
+fn yes() -> bool {
+    true
 }
 
 impl Default for Knobs {
     fn default() -> Self {
-        Knobs { poll_interval: None, initial_hash_mb: Some(1), tau_ps: 250_000, policy: Policy::Uniform, spurious_permille: 0 }
+        Knobs { poll_interval: None, initial_hash_mb: Some(1), tau_ps: 250_000, policy: Policy::Uniform, spurious_permille: 0, resend_position: true }
     }
 }
 
